@@ -1034,7 +1034,7 @@ class Event:
 
 
 class State:
-    __slots__ = ("env", "facts", "events", "status", "loops")
+    __slots__ = ("env", "facts", "events", "status", "loops", "pre")
 
     def __init__(self, env=None, facts=(), events=None, loops=()):
         self.env = dict(env or {})
@@ -1042,10 +1042,12 @@ class State:
         self.events = list(events or [])
         self.status = "run"       # run | return | raise | continue | break
         self.loops = tuple(loops)
+        self.pre = {}             # values of helper calls evaluated ahead of the statement that contains them: {id(call node): value}
 
     def fork(self):
         s = State(self.env, self.facts, self.events, self.loops)
         s.status = self.status
+        s.pre = dict(self.pre)
         return s
 
     def add_fact(self, t, pol):
@@ -1216,23 +1218,10 @@ class Engine:
         # simple statements: fork on undecided conditional expressions first
         outs = []
         for s2 in self.simple_forks(node, st):
-            top = node.value if isinstance(node, (ast.Expr, ast.Assign, ast.Return, ast.AnnAssign)) else None
-            fnode = self.inlinable(top, s2) if isinstance(top, ast.Call) else None
-            if fnode is not None:
-                for s3, v in self.inline(top, fnode, s2):
-                    if s3.status == "run":
-                        if isinstance(node, ast.Assign):
-                            for t in node.targets:
-                                self.assign(t, v, s3, node)
-                        elif isinstance(node, ast.AnnAssign):
-                            self.assign(node.target, v, s3, node)
-                        elif isinstance(node, ast.Return):
-                            self.emit(s3, "return", node, value=v)
-                            s3.status = "return"
-                    outs.append(s3)
-                continue
-            self.simple(node, s2)
-            outs.append(s2)
+            for s3 in self.helper_forks(node, s2):
+                if s3.status == "run":
+                    self.simple(node, s3)
+                outs.append(s3)
         return outs
 
     # ------------------------------------------------------------------------------------------------------------ helpers of the same module
@@ -1295,6 +1284,7 @@ class Engine:
         res = []
         for o in outs:
             c = State(st.env, o.facts, o.events, st.loops)
+            c.pre = dict(st.pre)
             val = ("k", None)
             if o.status == "return":
                 rets = [e for e in o.events if e.kind == "return"]
@@ -1309,6 +1299,43 @@ class Engine:
             self.emit(c, "leave", call, func=fnode.name, value=val)
             res.append((c, val))
         return res
+
+    def helper_forks(self, node, st):
+        """states in which every call of a followed helper inside the expression(s) has been evaluated (one state per path of the helper)"""
+        if self.follow is None and not self.nested:
+            return [st]
+        nodes = node if isinstance(node, list) else [node]
+        calls = []
+
+        def post(n):
+            if isinstance(n, (ast.Lambda, ast.ListComp, ast.GeneratorExp, ast.SetComp, ast.DictComp, ast.IfExp, ast.BoolOp)):
+                return            # evaluated conditionally / repeatedly: not ahead of time
+            for c in ast.iter_child_nodes(n):
+                post(c)
+            if isinstance(n, ast.Call):
+                calls.append(n)
+        for root in nodes:
+            if isinstance(root, ast.AST):
+                post(root)
+        states = [st]
+        for c in calls:
+            nxt = []
+            for s in states:
+                if s.status != "run" or id(c) in s.pre:
+                    nxt.append(s)
+                    continue
+                fnode = self.inlinable(c, s)
+                if fnode is None:
+                    nxt.append(s)
+                    continue
+                for s3, v in self.inline(c, fnode, s):
+                    s3.pre = dict(s.pre)
+                    s3.pre[id(c)] = v
+                    nxt.append(s3)
+            states = nxt
+            if len(states) > self.max_states:
+                raise Unsupported(f"more than {self.max_states} paths")
+        return states
 
     def simple_forks(self, node, st):
         """states in which every conditional expression of the statement is decided"""
@@ -1451,20 +1478,11 @@ class Engine:
         outs = []
         starts = []
         for s in self.simple_forks(node.test, st):
-            # `if helper(x):` / `if not helper(x):` with a helper of the module: one state per path of the helper
-            call = node.test.operand if isinstance(node.test, ast.UnaryOp) and isinstance(node.test.op, ast.Not) else node.test
-            fnode = self.inlinable(call, s) if isinstance(call, ast.Call) else None
-            if fnode is not None:
-                for s3, v in self.inline(call, fnode, s):
-                    if s3.status != "run":
-                        outs.append(s3)
-                        continue
-                    if call is not node.test:
-                        r_ = truth(v, {})
-                        v = ("k", not r_) if r_ is not None else ("not", v)
-                    starts.append((s3, v))
-            else:
-                starts.append((s, None))
+            for s3 in self.helper_forks(node.test, s):
+                if s3.status != "run":
+                    outs.append(s3)
+                else:
+                    starts.append((s3, None))
         for s, t in starts:
             if t is None:
                 t = self.ev(node.test, s)
@@ -1591,6 +1609,14 @@ class Engine:
                 if e_state.status in ("return", "raise"):
                     e_state.loops = post.loops
                     outs.append(e_state)
+            for e_state in ends:
+                if e_state.status == "break":
+                    e_state.status = "run"
+                    e_state.loops = post.loops
+                    have = {e.seq for e in e_state.events}
+                    e_state.events = sorted(e_state.events + [e for e in merged if e.seq not in have], key=lambda e: e.seq)
+                    self.emit(e_state, "loopexit", node, loop=lid, env={nm: e_state.env.get(nm) for nm in names}, by="break")
+                    outs.append(e_state)
             post.events = merged
             self._havoc(post, names | tnames, incs, f"L{lid}'")
             for nm in names:
@@ -1659,19 +1685,28 @@ class Engine:
                 if e_state.status in ("return", "raise"):
                     e_state.loops = post.loops
                     outs.append(e_state)
+            # a path that leaves by `break` goes on with what it knows at the break (the pass it is in stands for any pass)
+            for e_state in ends:
+                if e_state.status == "break":
+                    e_state.status = "run"
+                    e_state.loops = post.loops
+                    have = {e.seq for e in e_state.events}
+                    e_state.events = sorted(e_state.events + [e for e in merged if e.seq not in have], key=lambda e: e.seq)
+                    self.emit(e_state, "loopexit", node, loop=lid, env={nm: e_state.env.get(nm) for nm in names}, by="break")
+                    outs.append(e_state)          # `else` of a loop is skipped after a break
             post.events = merged
+            if r is True and truth(t, {}) is True:
+                continue                           # `while True:` is left only through break / return
             self._havoc(post, names, incs, f"L{lid}'")
             for nm in names:
                 if nm in incs and isinstance(pre.get(nm), Lin):
                     op = "GtE" if incs[nm] > 0 else "LtE"
                     post.add_fact(("cmp", op, lin(post.env[nm]), pre[nm]), True)
-            has_break = any(e_state.status == "break" for e_state in ends)
-            if not has_break:
-                try:
-                    t2 = self.ev(node.test, post)
-                    post.add_fact(t2, False)
-                except Unsupported:
-                    pass
+            try:
+                t2 = self.ev(node.test, post)
+                post.add_fact(t2, False)
+            except Unsupported:
+                pass
             self.emit(post, "loopexit", node, loop=lid, env={nm: post.env.get(nm) for nm in names})
             if node.orelse:
                 outs.extend(self.block(node.orelse, [post]))
@@ -2019,6 +2054,8 @@ class Engine:
             root = name.split(".")[0] if name else None
             if name is None or root in st.env:
                 recv = self.ev(node.func.value, st)
+        if id(node) in st.pre:
+            return st.pre[id(node)]
         fnode = self.inlinable(node, st)
         if fnode is not None:
             outs = [(c, v) for c, v in self.inline(node, fnode, st.fork()) if c.status == "run"]
